@@ -83,8 +83,25 @@ def _raising_callback(proc: Any, idx: int) -> None:
     raise exc
 
 
-def _terminate(self: Any, idx: int, term: str, last: bool) -> Any:
+def _terminate(self: Any, idx: int, term: Any, last: bool) -> Any:
     nxt = None if last else getattr(self, f's{idx + 1}')
+    if isinstance(term, tuple):
+        # parameterised terminators (used by C13): ('cont', args, kwargs) ('wait', msg, data) ('ret', v)
+        # ('unsucc', code) ('stop', v, successful) ('killcmd', text|None) ('raise',)
+        kind = term[0]
+        if kind == 'cont':
+            return process_states.Continue(nxt, *term[1], **dict(term[2]))
+        if kind == 'wait':
+            return process_states.Wait(nxt, term[1], dict(term[2]) if isinstance(term[2], tuple) else term[2])
+        if kind == 'ret':
+            return term[1]
+        if kind == 'unsucc':
+            return plumpy.UnsuccessfulResult(term[1])
+        if kind == 'stop':
+            return process_states.Stop(term[1], term[2])
+        if kind == 'killcmd':
+            return process_states.Kill(None if term[1] is None else plumpy.MessageBuilder.kill(term[1]))
+        term = kind
     if term == 'cont':
         return process_states.Continue(nxt)
     if term == 'cont_a':
